@@ -340,7 +340,7 @@ def run(ctx):
     # ---- leg 2 execution ----------------------------------------------------------------------------------------
     obsp = ctx.path("obs.ndjson")
     vlib.write_ndjson(obsp, obs)
-    states = 16 if q else 32
+    states = 16 if q else 64
     xres, restarts = run_exec(ctx, bdir, obsp, len(obs), states, 6)
     skip = collections.Counter()
     skip_names = collections.defaultdict(set)
@@ -377,7 +377,7 @@ def run(ctx):
     for k, fails in rej:
         for clause, arg in fails:
             groups.setdefault(key_of(clause, arg, obs[k]), []).append((k, clause, arg))
-    rdir = ctx.out.rstrip("/") + "_replay"
+    rdir = ctx.path("rejects")           # replay runs use their own scratch directory (out/C12_replay), so these files survive
     os.makedirs(rdir, exist_ok=True)
     dbv_by = collections.defaultdict(list)
     for k, fails in dbv:
